@@ -193,6 +193,9 @@ class Switch(Generic[R], GenerativeFunction[R]):
         idx, branch_args = args[0], args[1:]
         self._check_args_match_branches(branch_args)
         idx = _clamp_idx(idx, len(self.branches))
+        if isinstance(idx, int):
+            # a concrete index: only the selected branch's choices are in `sample`.
+            return self.branches[idx].assess(sample, branch_args[idx])
 
         fs = list(f.assess for f in self.branches)
         f_args = list((sample, args) for args in branch_args)
